@@ -5,11 +5,10 @@
    on the wrong type, wrong arity), and running out of recursion fuel is [OutOfFuel]; termination of the model
    itself is Coq's.  Proved below: evaluation of every well-typed query on every well-formed value within the
    depth limit returns a nodelist (no error of any kind), and compile() of ANY text of scalar values never ends in an
-   exception that is not a JSONPathError (C13_compile_no_other_exception), and the lexer's state machine terminates on
-   every text (C13_tokenize_terminates).  NOT proved (decided by the correspondence on garbage / near-miss / deeply
-   nested inputs, with every exception classified): that the fuel the model gives the PARSER's recursion always
-   suffices (= termination of the parser's loops), and
-     C13_find_total : forall cfg q v, compiled q -> (exists ns, m_find cfg q v = Ok ns) \/ m_find cfg q v = Err ERecursion None *)
+   exception that is not a JSONPathError (C13_compile_no_other_exception), the lexer's state machine and the parser's
+   recursion terminate on every text (C13_tokenize_terminates, C13_parse_terminates), hence compile() is total:
+   C13_compile_total; and find() of a compiled query on ANY well-formed value, however deep, returns a nodelist or
+   raises JSONPathRecursionError: C13_find_total, C13_env_find_total. *)
 From JP Require Import Base.Json Model.Ast Model.Eval Spec.Sem Spec.Types Proofs.FilterProofs.
 
 Theorem C13_eval_total_partial : forall cfg, reg_ok (reg cfg) = true -> (1 <= max_depth cfg)%nat ->
@@ -42,6 +41,43 @@ From JP Require Import Proofs.LexTerm.
 Theorem C13_tokenize_terminates : forall text, m_tokenize text <> OutOfFuel.
 Proof. exact tokenize_terminates. Qed.
 Print Assumptions C13_tokenize_terminates.
+
+(* the parser: "5 * (tokens left that are not EOF) + rank of the function (<= 5)" bounds the depth of the recursion of
+   the fourteen mutually recursive parse functions, and Parser.parse is given 6 * len(tokens) + 16 (Proofs/ParseTerm.v:
+   every cycle in the call graph consumes a token) *)
+From JP Require Import Model.Parse Proofs.ParseTerm.
+Theorem C13_parse_terminates : forall cfg toks, p_parse cfg toks <> PFuel.
+Proof. exact parse_terminates. Qed.
+Print Assumptions C13_parse_terminates.
+
+(* compile() of any text of scalar values returns a query or raises a JSONPathError: nothing else, and it terminates *)
+Theorem C13_compile_total : forall cfg text, forallb is_scalar text = true ->
+  (exists q, m_compile cfg text = Ok q) \/ (exists c off, m_compile cfg text = Err c off).
+Proof. exact compile_total. Qed.
+Print Assumptions C13_compile_total.
+
+(* find() on any well-formed value: evaluation depends on max_recursion_depth only through the depth test of '..', so it
+   either agrees with evaluation under a limit the value fits in (which returns a nodelist: C02's theorem) or raises
+   JSONPathRecursionError (Proofs/EvalTotal.v) *)
+From JP Require Import Proofs.EvalTotal.
+Theorem C13_find_total : forall cfg, reg_ok (reg cfg) = true ->
+  forall text q v, m_compile cfg text = Ok q -> wf_json v = true ->
+  (exists ns, m_find cfg q v = Ok ns) \/ m_find cfg q v = Err ERecursion None.
+Proof. intros cfg Hr text q v Ec Hv. apply find_total; [exact Hr | exact (proj1 (compile_typed cfg text q Ec)) | exact Hv]. Qed.
+Print Assumptions C13_find_total.
+
+(* JSONPathEnvironment.find(text, value) = compile(text).find(value): a nodelist or a JSONPathError, for every text of
+   scalar values and every well-formed value *)
+Theorem C13_env_find_total : forall cfg, reg_ok (reg cfg) = true ->
+  forall text v, forallb is_scalar text = true -> wf_json v = true ->
+  (exists ns, m_env_find cfg text v = Ok ns) \/ (exists c off, m_env_find cfg text v = Err c off).
+Proof.
+  intros cfg Hr text v Hs Hv. unfold m_env_find.
+  destruct (compile_total cfg text Hs) as [[q Eq] | [c [off Ec]]]; [|rewrite Ec; right; do 2 eexists; reflexivity].
+  rewrite Eq. cbn [bind]. destruct (C13_find_total cfg Hr text q v Eq Hv) as [[ns E] | E]; rewrite E;
+    [left; eexists; reflexivity | right; do 2 eexists; reflexivity].
+Qed.
+Print Assumptions C13_env_find_total.
 
 (* the error string: position() is defined for every offset, including the synthetic index -1 *)
 From JP Require Import Model.Position.
